@@ -16,6 +16,14 @@ pub enum Host {
     Ia5,
     SeqOf,
     SetOf,
+    /// the other known-multiplier character string types (a SIZE on UTF8String and the other
+    /// types that are not known-multiplier is not PER-visible: `Utf8` is kept for old replays only)
+    Universal,
+    Bmp,
+    Numeric,
+    Printable,
+    Visible,
+    Utf8,
 }
 
 #[derive(Clone, Copy, Debug, PartialEq, Eq, Hash, serde::Serialize, serde::Deserialize)]
@@ -252,6 +260,12 @@ fn case_text(i: usize, c: &Case) -> String {
         Host::BitString => (size_text(c), "BIT STRING"),
         Host::OctetString => (size_text(c), "OCTET STRING"),
         Host::Ia5 => (size_text(c), "IA5String"),
+        Host::Universal => (size_text(c), "UniversalString"),
+        Host::Bmp => (size_text(c), "BMPString"),
+        Host::Numeric => (size_text(c), "NumericString"),
+        Host::Printable => (size_text(c), "PrintableString"),
+        Host::Visible => (size_text(c), "VisibleString"),
+        Host::Utf8 => (size_text(c), "UTF8String"),
         Host::SeqOf | Host::SetOf => (size_text(c), ""),
     };
     let ty = match (c.host, c.place) {
@@ -843,7 +857,7 @@ fn with_ext(e: ESet, ext: bool) -> Con {
 }
 
 fn random_case(src: &mut Src) -> Case {
-    let host = [Host::Integer, Host::Integer, Host::OctetString, Host::SeqOf, Host::Ia5, Host::BitString, Host::SetOf][src.pick(7)];
+    let host = [Host::Integer, Host::Integer, Host::Integer, Host::OctetString, Host::SeqOf, Host::Ia5, Host::BitString, Host::SetOf, Host::Universal, Host::Bmp, Host::Numeric, Host::Printable, Host::Visible][src.pick(13)];
     let ops = if host == Host::Integer { value_operands() } else { size_operands() };
     let nser = 1 + src.pick(3);
     let mut cons = vec![];
@@ -925,7 +939,11 @@ pub fn run(tier: Tier, seed: u64, replay: Option<String>) -> i32 {
     for n in 1..=2 {
         for e in esets(&sops, n) {
             for ext in [false, true] {
-                for host in [Host::OctetString, Host::BitString, Host::Ia5, Host::SeqOf, Host::SetOf] {
+                for host in [Host::OctetString, Host::BitString, Host::Ia5, Host::SeqOf, Host::SetOf, Host::Universal, Host::Bmp, Host::Numeric, Host::Printable, Host::Visible] {
+                    // (the further string types: one-operand expressions only)
+                    if n == 2 && matches!(host, Host::Universal | Host::Bmp | Host::Numeric | Host::Printable | Host::Visible | Host::Utf8) {
+                        continue;
+                    }
                     for place in [Place::Assignment, Place::Component] {
                         if n == 2 && tier == Tier::Quick && !(host == Host::OctetString || host == Host::SeqOf) {
                             continue;
